@@ -144,6 +144,7 @@ func (r *rowsT) Next(dest []driver.Value) error {
 }
 
 var inList = regexp.MustCompile(`\(fingerprint IN \(([0-9,]*)\)\)`)
+var reDates = regexp.MustCompile(`\(\(date\) >= \('(\d{4}-\d{2}-\d{2})'\)\) and \(\(date\) <= \('(\d{4}-\d{2}-\d{2})'\)\)`)
 
 func (*conn) QueryContext(ctx context.Context, q string, args []driver.NamedValue) (driver.Rows, error) {
 	curMtx.Lock()
@@ -158,7 +159,17 @@ func (*conn) QueryContext(ctx context.Context, q string, args []driver.NamedValu
 		return &rowsT{cols: 1}, nil
 	}
 	if strings.Contains(q, "JSONExtractKeysAndValues(labels") {
-		// the labels request, answered from the case's series (one row per stored day)
+		// the labels request, answered from the case's series: one row per stored day between the two date
+		// bounds of THIS statement (the reading fetch_rows of coq/model/PromSem.v)
+		d1, d2 := int64(-1<<40), int64(1<<40)
+		if m := reDates.FindStringSubmatch(q); m != nil {
+			if t, err := time.Parse("2006-01-02", m[1]); err == nil {
+				d1 = t.Unix() / 86400
+			}
+			if t, err := time.Parse("2006-01-02", m[2]); err == nil {
+				d2 = t.Unix() / 86400
+			}
+		}
 		want := map[uint64]bool{}
 		if m := inList.FindStringSubmatch(q); m != nil {
 			for _, x := range strings.Split(m[1], ",") {
@@ -172,11 +183,16 @@ func (*conn) QueryContext(ctx context.Context, q string, args []driver.NamedValu
 			if !want[s.Fp] {
 				continue
 			}
-			var l [][]interface{}
-			for _, kv := range s.Labels {
-				l = append(l, []interface{}{kv[0], kv[1]})
+			for _, d := range s.Days {
+				if d < d1 || d > d2 {
+					continue
+				}
+				var l [][]interface{}
+				for _, kv := range s.Labels {
+					l = append(l, []interface{}{kv[0], kv[1]})
+				}
+				rows = append(rows, []driver.Value{s.Fp, l})
 			}
-			rows = append(rows, []driver.Value{s.Fp, l})
 		}
 		return &rowsT{cols: 2, rows: rows}, nil
 	}
@@ -466,6 +482,26 @@ func genExpr(r *rand.Rand, step int64) (string, []string) {
 	}
 }
 
+// day-over-day queries: several selectors whose windows lie on different UTC days
+func genChurnExpr(r *rand.Rand, metric string) (string, []string) {
+	sel := metric
+	if r.Intn(3) == 0 {
+		sel = metric + `{job=~".+"}`
+	}
+	switch r.Intn(5) {
+	case 0:
+		return sel + " or " + sel + " offset 1d", []string{"churn", "instant-bare"}
+	case 1:
+		return "sum by (job) (" + sel + ") / sum by (job) (" + sel + " offset 1d)", []string{"churn", "aggregate"}
+	case 2:
+		return sel + " offset 1d or " + sel, []string{"churn", "instant-bare"}
+	case 3:
+		return "sum_over_time(" + sel + "[30s]) or sum_over_time(" + sel + "[30s] offset 1d)", []string{"churn", "range-func"}
+	default:
+		return "count(" + sel + ") + count(" + sel + " offset 2d)", []string{"churn", "aggregate"}
+	}
+}
+
 func genCase(r *rand.Rand, id int) Case {
 	step := []int64{1000, 5000, 7000, 10000, 13000, 20000, 30000, 60000}[r.Intn(8)]
 	start := int64(1700000000000) + int64(r.Intn(86400))*1000
@@ -480,12 +516,22 @@ func genCase(r *rand.Rand, id int) Case {
 	}
 	end := start + int64(3+r.Intn(15))*step
 	expr, class := genExpr(r, step)
+	churn := r.Intn(4) == 0
+	metric := pool[0][1+r.Intn(3)]
+	if churn {
+		expr, class = genChurnExpr(r, metric)
+		start = start - start%86400000 + int64(3600+r.Intn(72000))*1000 + 1000 // away from midnight
+		end = start + int64(3+r.Intn(15))*step
+	}
 	c := Case{ID: id, Kind: "engine", Class: class, Expr: expr, StartMs: start, EndMs: end, StepMs: step, DB: &DB{}}
 	n := 2 + r.Intn(4)
 	seen := map[string]bool{}
 	for i := 0; i < n; i++ {
 		var l [][2]string
 		l = append(l, [2]string{"__name__", pool[0][1+r.Intn(3)]})
+		if churn && r.Intn(5) != 0 {
+			l[0][1] = metric
+		}
 		for _, p := range pool[1:] {
 			if r.Intn(3) != 0 {
 				l = append(l, [2]string{p[0], p[1+r.Intn(len(p)-1)]})
@@ -498,20 +544,27 @@ func genCase(r *rand.Rand, id int) Case {
 		seen[k] = true
 		s := DBSeries{Fp: r.Uint64(), Type: []int64{2, 2, 2, 0, 1}[r.Intn(5)], Labels: l}
 		days := map[int64]bool{}
-		// samples every 1..15 s from 6 min before the start, off the whole seconds (never on a window bound)
-		t := start - 360000 + int64(r.Intn(20000)) + 500
+		// samples every 1..15 s from 6 min before the start, off the whole seconds (never on a window bound);
+		// with churn: the series lives today, yesterday / two days ago, or on all of them
+		shifts := []int64{0}
+		if churn {
+			shifts = [][]int64{{0}, {86400000}, {86400000, 172800000}, {0, 86400000, 172800000}}[r.Intn(4)]
+		}
 		gap := int64(1+r.Intn(15)) * 1000
 		v := int64(r.Intn(50))
-		for t <= end {
-			if r.Intn(10) != 0 {
-				c.DB.Samples = append(c.DB.Samples, DBSample{Fp: s.Fp, Type: s.Type, TsNs: t * 1000000, Value: v})
-				days[t/86400000] = true
+		for _, sh := range shifts {
+			t := start - sh - 360000 + int64(r.Intn(20000)) + 500
+			for t <= end-sh {
+				if r.Intn(10) != 0 {
+					c.DB.Samples = append(c.DB.Samples, DBSample{Fp: s.Fp, Type: s.Type, TsNs: t * 1000000, Value: v})
+					days[t/86400000] = true
+				}
+				if r.Intn(25) == 0 {
+					t += int64(r.Intn(400)) * 1000 // a hole: staleness
+				}
+				t += gap
+				v += int64(r.Intn(7))
 			}
-			if r.Intn(25) == 0 {
-				t += int64(r.Intn(400)) * 1000 // a hole: staleness
-			}
-			t += gap
-			v += int64(r.Intn(7))
 		}
 		for d := range days {
 			s.Days = append(s.Days, d)
